@@ -408,6 +408,20 @@ def run_watchdog(acc, case):
                 w.addEpoch(f"e{i}")
             elif k == "disable":
                 w.disable()
+            elif k == "getTimeout":
+                acc.checks += 1
+                acc.ev("watchdog-getTimeout")
+                if abs(w.getTimeout() - timeout / 1e6) > 1e-12:
+                    acc.violation("C19/watchdog-getTimeout", f"getTimeout() is {w.getTimeout()!r} with a timeout of {timeout} us", case, {"i": i})
+                    return
+            elif k == "getTime":
+                if reset_at is None:
+                    continue
+                acc.checks += 1
+                acc.ev("watchdog-getTime")
+                if abs(w.getTime() - (now - reset_at) / 1e6) > 1e-9:
+                    acc.violation("C19/watchdog-getTime", f"getTime() is {w.getTime()!r}, {now - reset_at} us after the last reset", case, {"i": i})
+                    return
             elif k == "isExpired":
                 v = w.isExpired()
                 if reset_at is None:
@@ -544,6 +558,8 @@ def gen_case(rng, kind):
         elif r < 0.92:
             cur = rng.choice([20000, 1001, rng.randrange(1000, 200000)])
             ops.append(["setTimeout", cur])
+        elif r < 0.94:
+            ops.append([rng.choice(["getTime", "getTimeout"])])
         elif r < 0.97:
             ops.append(["addEpoch"])
         else:
